@@ -465,7 +465,9 @@ class Schema(dict, metaclass=LogicalMeta):
         dict.update(obj, self)
         # since self.<data> is validated
         # we directly call dict.update to avoid calling the parsing methods again
-        obj.__dict__ = self.__dict__
+        obj.__dict__ = dict(self.__dict__)
+        # a shallow copy: sharing the attribute dict would let a change of
+        # a no_output field of the copy show up in the source
         return obj
 
     def clear(self):
